@@ -587,6 +587,8 @@ class Search:
         ctx = self.ctx
         ctx.case((key, call, tuple((k, (v.tobytes()[:32] if isinstance(v, np.ndarray) else repr(v))) for k, v in setup.items())))
         ctx.stat("search_" + key.split(":")[0])
+        if 3 <= len(ctx.samples) < 12 and not any(isinstance(x, dict) and x.get("key", "").split(":")[0] == key.split(":")[0] for x in ctx.samples):
+            ctx.sample({"key": key, "call": call, "expected": repr(expected)[:80]})
         before = {k: (v.copy() if isinstance(v, np.ndarray) else v) for k, v in setup.items()}
         try:
             with warnings.catch_warnings():
